@@ -411,8 +411,12 @@ impl TerminalRenderer {
                         }
                     }
                     pos.col += repeats;
-                    // erase if it is more efficient
-                    if repeats > 4 {
+                    // erase if it is more efficient, erased cells only get background
+                    // color, so it can not be used if empty cell is decorated
+                    let decorated = new.face.attrs.underline() != crate::UnderlineStyle::None
+                        || new.face.attrs.contains(crate::FaceAttrs::REVERSE)
+                        || new.face.attrs.contains(crate::FaceAttrs::STRIKE);
+                    if repeats > 4 && !decorated {
                         // NOTE: erase is not moving cursor
                         term.execute(TerminalCommand::EraseChars(repeats))?;
                     } else {
